@@ -519,9 +519,9 @@ class InternationalizationExtension(Extension):
         newstyle = self.environment.newstyle_gettext  # type: ignore
         node: nodes.Expr
 
-        # no variables referenced?  no need to escape for old style
-        # gettext invocations only if there are vars.
-        if not vars_referenced and not newstyle:
+        # no variables?  no need to escape for old style gettext
+        # invocations, the result is only formatted if there are vars.
+        if not variables and not newstyle:
             singular = singular.replace("%%", "%")
             if plural:
                 plural = plural.replace("%%", "%")
